@@ -255,6 +255,18 @@ def KaczmarzP.step (P : KaczmarzP K V W) (s : KaczmarzS V W) : KaczmarzS V W :=
   let s2 := forRange P.inner P.m s
   if P.cbInner then s2 else { s2 with log := s2.log ++ [s2.x] }
 
+/-- One sweep visiting the operators in the given `order` (`random=True`: the permutation drawn
+by `np.random.permutation` for this sweep; `random=False`: `range(len(ops))`, i.e. `step`).
+The relaxation parameter, right-hand side and temporary are those of the OPERATOR `i`. -/
+def KaczmarzP.stepOrd (P : KaczmarzP K V W) (order : List Nat) (s : KaczmarzS V W) : KaczmarzS V W :=
+  let s2 := order.foldl (fun s i => P.inner i s) s
+  if P.cbInner then s2 else { s2 with log := s2.log ++ [s2.x] }
+
+/-- `niter` sweeps with one visiting order per sweep. -/
+def KaczmarzP.runOrd (P : KaczmarzP K V W) : List (List Nat) → KaczmarzS V W → KaczmarzS V W
+  | [], s => s
+  | o :: os, s => P.runOrd os (P.stepOrd o s)
+
 end Landweber
 
 /-! ## Proximal gradient (`proximal_gradient_solvers.py`) -/
